@@ -1094,7 +1094,7 @@ class MultiCouplingTerms(CouplingTerms):
         ijkl = [t[1] for t in term]
         assert all([i < j for i, j in zip(ijkl, ijkl[1:])])  # ascending?
         op_needs_JW = [sites[i % L].op_needs_JW(op) for op, i in term]
-        if not any(op_needs_JW):
+        if op_string is None and not any(op_needs_JW):
             op_string = 'Id'
         # shift ijkl such that first site is inside unit cell
         i0 = ijkl[0]
